@@ -27,7 +27,7 @@ EXTENDS Integers, Sequences, FiniteSets, TLC, SequencesExt
 Elems(s) == {s[i] : i \in 1..Len(s)}
 FlagBits(S) == (IF "marks" \in S THEN 8 ELSE 0) + (IF "ligs" \in S THEN 4 ELSE 0) + (IF "base" \in S THEN 2 ELSE 0)
 
-KindOf(f) == CASE f \in {"run", "map"} -> "single"
+KindOf(f) == CASE f \in {"run", "map", "rund"} -> "single"
                [] f = "mult" -> "multiple"
                [] f = "alt" -> "alternate"
                [] f \in {"lig", "ligrun"} -> "ligature"
@@ -40,7 +40,7 @@ SumLen(seq) == IF seq = <<>> THEN 0 ELSE LET S[i \in 0..Len(seq)] == IF i = 0 TH
 
 SubConforms(s, f, st) ==
   /\ st.k = KindOf(f)
-  /\ CASE f \in {"run", "map"} -> Len(st.map) = s.a
+  /\ CASE f \in {"run", "map", "rund"} -> Len(st.map) = s.a
        [] f = "mult"   -> Len(st.map) = s.a /\ AllOf(st.map, LAMBDA m : Len(m[2]) = s.b)
        [] f = "alt"    -> Len(st.map) = s.a /\ AllOf(st.map, LAMBDA m : Len(m[2]) = s.b)
        [] f = "lig"    -> Len(st.map) = s.a
@@ -64,6 +64,26 @@ SubConforms(s, f, st) ==
        [] f = "curs"     -> Len(st.map) = s.a
        [] f = "markbase" -> Len(st.marks) = s.a /\ Len(st.bases) = s.c
                             /\ AllOf(st.bases, LAMBDA x : Len(x[2]) = s.b)
+
+(* Subtable alternatives.  Every pair of alternative formats is a distinct kind of the projection *)
+(* (pos1set/pos1each, pair/pairclass, ctx1/2/3, cc1/2/3) and is therefore preserved by equality,  *)
+(* except GSUB 1: the notation lists glyph -> glyph mappings, and the parser stores them as        *)
+(* format 1 exactly when the difference of the glyph ids is constant (modulo 65536).  So a format 1 *)
+(* subtable must come back as format 1 and a format 2 subtable without constant difference as      *)
+(* format 2; a format 2 subtable WITH constant difference cannot be told from format 1 in the       *)
+(* notation (no demand).  Coverage and class-definition formats do not exist in the data model.     *)
+ConstDelta(map) == \A i \in 1..Len(map) : (map[i][2] - map[i][1]) % 65536 = (map[1][2] - map[1][1]) % 65536
+FormatsKept(before, bfmt, afmt) ==
+  /\ Len(bfmt) = Len(before) /\ Len(afmt) = Len(before)
+  /\ \A i \in 1..Len(before) :
+       /\ Len(bfmt[i]) = Len(before[i].subs) /\ Len(afmt[i]) = Len(before[i].subs)
+       /\ \A j \in 1..Len(before[i].subs) :
+            LET st == before[i].subs[j] IN
+            IF st.k = "single"
+              THEN /\ bfmt[i][j] \in {1, 2} /\ afmt[i][j] \in {1, 2}
+                   /\ bfmt[i][j] = 1 => (ConstDelta(st.map) /\ afmt[i][j] = 1)
+                   /\ (bfmt[i][j] = 2 /\ ~ConstDelta(st.map)) => afmt[i][j] = 2
+              ELSE bfmt[i][j] = 0 /\ afmt[i][j] = 0
 
 Conforms(s, ll) ==
   /\ Len(ll) = IF s.lst = "single" THEN 1 ELSE 3
